@@ -40,6 +40,10 @@ VALUES = {
     "long": [-2.0, 0.5, 3.0, 0.0, 1.0],
 }
 
+# a second assignment of values to the same roles (order-, sign- and magnitude-relations differ from the first one);
+# keys with a structural constraint (sorted, exact ties, NaN position) keep their values
+ALT = {"v1": "v2", "v2": "v3", "v3": "v1", "pos": "pos2", "pos2": "pos", "m22": "n22", "n22": "p22", "p22": "m22", "s": "s2", "s2": "s", "unit": "zeros", "big": "pos"}
+
 SPELL = {
     "L": [("meter", 1.0), ("centimeter", 100.0), ("kilometer", 1e-3)],
     "T": [("second", 1.0), ("millisecond", 1000.0)],
@@ -95,7 +99,7 @@ u2(["floor_divide"], v1="pos2", v2="pos", out="D")
 u2(["arctan2"], out="A")
 u2(["logaddexp", "logaddexp2"], d1="D", d2="D", v1="unit", v2="pos", out="D")
 fn("power", {"x": ("L", "pos")}, lambda f, a: f(a["x"], 2), "L**2", kind="ufunc")
-fn("power", {"x": ("L", "pos"), "p": ("D", "s")}, lambda f, a: f(a["x"], a["p"]), "L**3", kind="ufunc")
+fn("power", {"x": ("L", "pos"), "p": ("D", "s")}, lambda f, a: f(a["x"], a["p"]), "L**3", kind="ufunc", no_alt=True)  # the implied unit depends on the VALUE of p
 fn("ldexp", {"x": ("L", "v1")}, lambda f, a: f(a["x"], 2), "L", kind="ufunc")
 
 # ------------------------------------------------------------------ reductions (function form), with axis variants
